@@ -108,6 +108,7 @@ pub fn gen_c11(rng: &mut Rng, tier: &str) -> MultiCase {
                     eintr_pm: *rng.pick(&[0u16, 200]),
                     seed: rng.next_u64(),
                     fail: None,
+                    commit_on_flush: false,
                 }
             } else {
                 SinkFaults::default()
